@@ -35,11 +35,7 @@ theorem scanRows_mono (ord : Nat) : ∀ (fxs : List Fx) (row : Nat) (st : ScanSt
     · have hv0 : cntAt st.cnt ord row = 0 := by simpa using hv
       have hstep : ∀ o r, cntAt st.cnt o r ≠ 0 → cntAt (visitStep ord row fx (clampBpm st)).cnt o r ≠ 0 := by
         intro o r hne
-        rw [visitStep_cnt]
-        show cntAt (cntInc st.cnt ord row) o r ≠ 0
-        rw [cntAt_cntInc_ne]
-        · exact hne
-        · intro hh; rw [hh.1, hh.2] at hne; exact hne hv0
+        exact (visitStep_cnt_facts ord row fx (clampBpm st)).2.2.1 o r hne
       have hctl : (visitStep ord row fx (clampBpm st)).ctl = st.ctl := by rw [visitStep_ctl]; rfl
       have hf := scanRows_cons_fresh' ord fx tl row st hv0
       cases fx with
@@ -48,7 +44,7 @@ theorem scanRows_mono (ord : Nat) : ∀ (fxs : List Fx) (row : Nat) (st : ScanSt
         constructor
         · intro st' o2 h; rw [hf] at h; cases h; exact ⟨hstep, hctl⟩
         · intro st' r' h; rw [hf] at h; cases h
-      | none | speed _ | tempo _ | delay _ =>
+      | none | speed _ | tempo _ | delay _ | rowdelay _ =>
         simp only at hf
         obtain ⟨i1, i2⟩ := ih (row + 1) (visitStep ord row _ (clampBpm st))
         constructor
@@ -176,9 +172,9 @@ theorem enter_of_nextOrder (e : PlayEnv) (s : PlaySt) (nord o : Nat)
     (h : nextOrder e.m e.si e.ctl (orderFuel e.m) nord = some o) :
     ∃ p', e.enter s nord = some p' ∧ p'.ord = o ∧ p'.row = 0 ∧ p'.frame = 0 ∧ p'.speed = s.speed ∧
       p'.bpm = s.bpm ∧ p'.delay = s.delay ∧ p'.pbreak = s.pbreak ∧ p'.jump = s.jump ∧
-      p'.loopCount = s.loopCount ∧ p'.endPoint = s.endPoint ∧ p'.time = s.time := by
+      p'.loopCount = s.loopCount ∧ p'.endPoint = s.endPoint ∧ p'.time = s.time ∧ p'.rowdelay = s.rowdelay := by
   simp only [PlayEnv.enter, h]
-  exact ⟨_, rfl, rfl, rfl, rfl, rfl, rfl, rfl, rfl, rfl, rfl, rfl, rfl⟩
+  exact ⟨_, rfl, rfl, rfl, rfl, rfl, rfl, rfl, rfl, rfl, rfl, rfl, rfl, rfl⟩
 
 theorem rowsOf_mem (m : LinMod) (o : Nat) (h : isPlay m o) : m.rowsOf (m.patOf o) ∈ m.pats := by
   have h2 : m.patOf o < m.pats.length := h.2
@@ -214,7 +210,7 @@ theorem initCnt_rowLen (m : LinMod) (o : Nat) (h : isPlay m o) (hne : m.rowsOf (
 
 theorem readFx_loopCount (fx : Fx) (s : PlaySt) : (readFx fx s).loopCount = s.loopCount := by
   cases fx <;> simp [readFx]
-  split <;> rfl
+  all_goals (split <;> rfl)
 
 /-- entering the scan's end point with the visit budget used up increments the loop counter -/
 theorem render_end (e : PlayEnv) (p : PlaySt) (hf : p.frame = 0) (ho : p.ord = e.si.endOrd)
@@ -369,6 +365,7 @@ structure Pend (e : PlayEnv) (s0 : PlaySt) (st : ScanSt) (nord : Nat) (F : List 
   bpm : sP.bpm = st.bpm
   time : sP.time = st.now
   endPoint : sP.endPoint = e.startEndPoint - (cntAt st.cnt e.si.endOrd e.si.endRow : Nat)
+  rowdelay : sP.rowdelay = 0
 
 /-- the player has rendered `F` and stands at the first tick of row 0 of order `o` (before its
 new-row work), in agreement with the scan state `st` that is about to scan that pattern -/
@@ -387,6 +384,7 @@ structure AtRow0 (e : PlayEnv) (s0 : PlaySt) (st : ScanSt) (o : Nat) (F : List P
   bpm : p0.bpm = st.bpm
   time : p0.time = st.now
   endPoint : p0.endPoint = e.startEndPoint - (cntAt st.cnt e.si.endOrd e.si.endRow : Nat)
+  rowdelay : p0.rowdelay = 0
 
 /-- a playable order that passes the scan's "already in a sequence" test lies at or after `o1` -/
 theorem claimed_ge (m : LinMod) (ep chain : Nat) (ctl0 : List Nat) (info0 : List OrdInfo) (e : PlayEnv) (o1 : Nat) (stF : ScanSt) (oF rF : Nat)
@@ -625,10 +623,10 @@ theorem inv_pattern (m : LinMod) (ep chain : Nat) (ctl0 : List Nat) (info0 : Lis
 theorem atRow0_of_pend (e : PlayEnv) (s0 : PlaySt) (st : ScanSt) (nord : Nat) (F : List PlaySt) (sP : PlaySt)
     (hp : Pend e s0 st nord F sP) (o : Nat) (hno : nextOrder e.m e.si e.ctl (orderFuel e.m) nord = some o) :
     ∃ p0, AtRow0 e s0 st o F p0 := by
-  obtain ⟨p0, hent, q1, q2, q3, q4, q5, q6, q7, q8, q9, q10, q11⟩ := enter_of_nextOrder e sP nord o hno
+  obtain ⟨p0, hent, q1, q2, q3, q4, q5, q6, q7, q8, q9, q10, q11, q12⟩ := enter_of_nextOrder e sP nord o hno
   exact ⟨p0, by rw [hp.run, hent]; rfl, hp.recs, hp.tk, q1, q2, q3, by rw [q6, hp.delay], by rw [q7, hp.pbreak],
     by rw [q8, hp.jump], by rw [q9, hp.loopCount], by rw [q4, hp.speed], by rw [q5, hp.bpm], by rw [q11, hp.time],
-    by rw [q10, hp.endPoint]⟩
+    by rw [q10, hp.endPoint], by rw [q12, hp.rowdelay]⟩
 
 theorem pend_pattern (m : LinMod) (ep chain : Nat) (ctl0 : List Nat) (info0 : List OrdInfo) (e : PlayEnv) (o1 : Nat) (stF : ScanSt) (oF rF : Nat)
     (H : SimHyp m ep chain ctl0 e o1 stF oF rF) (s0 : PlaySt) (st : ScanSt) (hinv : ScanInvW m ep chain ctl0 info0 o1 st)
@@ -652,7 +650,7 @@ theorem pend_pattern (m : LinMod) (ep chain : Nat) (ctl0 : List Nat) (info0 : Li
   have hrun0 : e.runN F.length s0 = some (F, p0) := ha.run
   have hfreshAll : ∀ r, cntAt st.cnt o r = 0 := hinv.pre o hfresh0
   have hlenfx : (pre ++ [last]).length = pre.length + 1 := by simp
-  obtain ⟨F2, sP2, hrun2, hrec2, htk2, b1, b2, b3, b4, b5, b6, b7, b8⟩ :=
+  obtain ⟨F2, sP2, hrun2, hrec2, htk2, b1, b2, b3, b4, b5, b6, b7, b8, b9⟩ :=
     play_pattern e o pre last post 0 p0 (by rw [H.em, hrows]; rfl) hpre hlw hlast
       (by
         intro h1 _ h3
@@ -660,7 +658,7 @@ theorem pend_pattern (m : LinMod) (ep chain : Nat) (ctl0 : List Nat) (info0 : Li
         have := hnum h1 (by omega)
         simpa using this)
       ha.ord ha.row ha.frame ha.delay ha.pbreak ha.jump ha.loopCount
-      (by rw [ha.speed]; exact hinv.speed)
+      (by rw [ha.speed]; exact hinv.speed) ha.rowdelay
   have hrunAll := runN_add' e F.length s0 F p0 F2.length hrun0
   rw [hrun2, Option.map_map] at hrunAll
   have hsp0 : p0.speed = st3.speed := by rw [ha.speed, f1]
@@ -702,6 +700,7 @@ theorem pend_pattern (m : LinMod) (ep chain : Nat) (ctl0 : List Nat) (info0 : Li
       have h2 : cntAt st'.cnt e.si.endOrd e.si.endRow = cntAt st.cnt e.si.endOrd e.si.endRow := by
         rw [hd.other _ _ (by rw [hlenfx]; omega), h3cnt]
       rw [h1, h2]; omega
+  · exact b9
 
 /-! ## the global induction -/
 
@@ -1028,7 +1027,7 @@ theorem sim_scanOrders (m : LinMod) (ep chain : Nat) (ctl0 : List Nat) (info0 : 
   have hstart : e.start = some s0 := by
     simp only [PlayEnv.start, hno, hs0]
   have ha : AtRow0 e s0 st0 o1 [] s0 := by
-    refine ⟨rfl, ?_, ?_, ?_, ?_, ?_, ?_, ?_, ?_, ?_, ?_, ?_, ?_, ?_⟩
+    refine ⟨rfl, ?_, ?_, ?_, ?_, ?_, ?_, ?_, ?_, ?_, ?_, ?_, ?_, ?_, by rw [hs0]⟩
     · rw [hst0]; rfl
     · rw [h0now]; rfl
     · rw [hs0]
@@ -1132,7 +1131,7 @@ def timesOK : Nat → List PlaySt → Prop
 
 theorem readFx_time (fx : Fx) (s : PlaySt) : (readFx fx s).time = s.time := by
   cases fx <;> simp [readFx]
-  split <;> rfl
+  all_goals (split <;> rfl)
 
 theorem checkEnd_time (e : PlayEnv) (s : PlaySt) : (e.checkEnd s).time = s.time := by
   unfold PlayEnv.checkEnd
@@ -1152,17 +1151,26 @@ theorem enter_time (e : PlayEnv) (s s2 : PlaySt) (nord : Nat) (h : e.enter s nor
   · cases h
   · simp only [Option.some.injEq] at h; rw [← h]
 
+theorem nextRow_time (e : PlayEnv) (s s2 : PlaySt) (h : e.nextRow s = some s2) : s2.time = s.time := by
+  unfold PlayEnv.nextRow at h
+  simp only [] at h
+  split at h
+  · have := enter_time e _ _ _ h; exact this
+  · by_cases hrd : s.rowdelay = 0
+    · simp only [hrd, if_true] at h
+      split at h
+      · have := enter_time e _ _ _ h; exact this
+      · simp only [Option.some.injEq] at h; rw [← h]
+    · simp only [hrd, if_false] at h
+      split at h
+      · have := enter_time e _ _ _ h; exact this
+      · simp only [Option.some.injEq] at h; rw [← h]
+
 theorem advance_time (e : PlayEnv) (s s2 : PlaySt) (h : e.advance s = some s2) : s2.time = s.time := by
   unfold PlayEnv.advance at h
   simp only [] at h
   split at h
-  · unfold PlayEnv.nextRow at h
-    simp only [] at h
-    split at h
-    · have := enter_time e _ _ _ h; exact this
-    · split at h
-      · have := enter_time e _ _ _ h; exact this
-      · simp only [Option.some.injEq] at h; rw [← h]
+  · have := nextRow_time e _ _ h; exact this
   · simp only [Option.some.injEq] at h; rw [← h]
 
 theorem runN_times (e : PlayEnv) : ∀ (n : Nat) (s : PlaySt) (F : List PlaySt) (s' : PlaySt),
